@@ -1,4 +1,5 @@
 """C13 priorities and batching."""
+from vf.l2 import l2_job
 from vf.runner import Job, fl
 from vf.fp import core_fp, EVT_DTOR, SRC_DTOR
 
@@ -102,6 +103,10 @@ def jobs(tier):
                                 "timeout arguments (u64)", "initial state RUNNING/PAUSED", "tokens"],
                       bounds="NOPS=%d accumulated=%d" % (nops, k), timeout=900 if quick else 1400,
                       **dict(common, remove=SET_REMOVE)))
+    for p1, p2 in (((1, 2), (0, 1), (2, 1)) if quick else ((1, 2), (0, 1), (2, 1), (0, 2), (1, 0), (2, 0))):
+        js.append(l2_job("C13.resub.p%d_p%d" % (p1, p2), "l2/c13_resub.c", defines={"P1": p1, "P2": p2},
+                         symbolic=["errno left by callbacks (int)"],
+                         bounds="whole core: topic subscribed with priority %d, one event pending, subscribed again with priority %d" % (p1, p2), unwind=13))
     # concrete scripts (0 size, 1 timeout, 2 pause, 3 resume): same oracle, heap shape fixed
     scripts = [("pr", (2, 3)), ("tpr", (1, 2, 3))] if quick else \
               [("pr", (2, 3)), ("spr", (0, 2, 3)), ("tpr", (1, 2, 3)), ("prpr", (2, 3, 2, 3)), ("pstr", (2, 0, 1, 3)), ("tptr", (1, 2, 1, 3))]
